@@ -463,6 +463,18 @@ func runProperty(P *Prog, prop, tier string, seed int, verif, outDir string) *pr
 		}
 		specErrs = ded
 	}
+	// contracts whose function has disappeared from the tree
+	for _, u := range P.unbound {
+		hit := len(u.Props) == 0
+		for _, p := range u.Props {
+			if p == prop {
+				hit = true
+			}
+		}
+		if hit {
+			specErrs = append(specErrs, u.Msg+" (the function was renamed, removed or its closures were restructured; the obligations of its contract are undecided)")
+		}
+	}
 	for _, e := range specErrs {
 		res.violations++
 		os.MkdirAll(replayDir, 0o755)
